@@ -440,10 +440,16 @@ def _mcp_check(tier, seed):
         # line, at every byte alignment (anything that cuts the line at a fixed byte offset splits a character)
         wcls, script = dict(cls), []
         tools = ('parse_transactions', 'calculate_report', 'convert_to_dsl', 'explain_matching')
-        for k in range(12):
+        for k in range(20):
             note = 'куплено на закрытии торгов ' * 3 + 'é€' * 20 + 'x' * k
             bad = ('[{"date":"2024-01-15","ticker":"GLE","action":"BUY","amount":"100","price":"24.50","note":"' + note + '"},'
                    '{"date":"2024-06-20","ticker":"GLE","action":"SELL","amount":"5' + '0' * (k % 4) + '"},{"note":"' + 'дивиденды € ' * 20 + '"}]')
+            if k >= 6:
+                # an unknown action in the middle of one object: multi-byte text shortly before (ticker) and shortly after
+                # (note) the error, each shifted byte by byte, so that a window of any fixed width around the error column
+                # starts or ends inside a character
+                a, b = k % 6, (k * 5 + k // 6) % 7
+                bad = ('[{"date":"2024-01-15","ticker":"' + 'д' * 45 + 'x' * a + '","action":"HOLD","note":"' + 'y' * b + '€é' * 40 + '"}]')
             args = {'transactions': bad}
             if tools[k % 4] == 'explain_matching':
                 args.update({'disposal_date': '2024-06-20', 'ticker': 'GLE'})
